@@ -1,7 +1,8 @@
 CONSTANTS
+  MaxForks = 0
   Zones = {"UTC0", "JST-9", "IST-5:30", "NST3:30"}
   Kinds = {"plain", "default", "local", "utc"}
   MaxOps = 5
 SPECIFICATION Spec
-INVARIANTS UtcFixed LocalCurrent Emit
+INVARIANTS UtcFixed LocalCurrent PidCurrent Emit
 CHECK_DEADLOCK FALSE
